@@ -52,9 +52,22 @@ def apply_real(c, op, params=None):
         c.add(child, op[2], group=bool(op[3]), name=op[4])
     elif k == "plus":
         c = c + build_real(op[1], params)
+    elif k == "gate":
+        # ["gate", name, kwargs, mode] - a circuit from lightworks.qubit
+        c.add(make_gate(op[1], op[2]), op[3])
     else:
         raise ValueError(f"unknown op {k}")
     return c
+
+
+def make_gate(name, kwargs):
+    from lightworks import qubit
+    kw = dict(kwargs)
+    if name == "SWAP":
+        return qubit.SWAP(tuple(kw["qubit_1"]), tuple(kw["qubit_2"]))
+    if name in ("Rx", "Ry", "Rz", "P"):
+        return getattr(qubit, name)(kw["theta"])
+    return getattr(qubit, name)(**kw)
 
 
 def build_real(prog, params=None):
